@@ -28,7 +28,8 @@ def strip_all_casts(e):
     return e.replace('(', '').replace(')', '')
 
 def min_of(fn, C, n, rem, ):
-    """is SSA value n == (rem > S ? S : rem) for some S ; returns S canonical or None"""
+    """is SSA value n == min(rem, S) for some S (written as any comparison / conditional of the two)?  returns S or None.
+    Decided by evaluating the conditional on the three orderings rem < S, rem == S, rem > S."""
     d = fn.defs.get(n)
     if d is None:
         return None
@@ -56,21 +57,20 @@ def min_of(fn, C, n, rem, ):
         return None
     a, b = strip_int_casts(fn, cond.ops[0]), strip_int_casts(fn, cond.ops[1])
     tv, fv = vals
-    p = cond.pred
-    sg = p[0] == 's'
-    k = p[1:]
-    fn._cache['min_signed'] = sg
-    if k == 'gt' and a == rem and tv == b and fv == rem:
-        return b
-    if k == 'lt' and b == rem and tv == a and fv == rem:
-        return a
-    if k == 'lt' and a == rem and tv == rem and fv == b:
-        return b
-    if k == 'le' and a == rem and tv == rem and fv == b:
-        return b
-    if k == 'ge' and a == rem and tv == b and fv == rem:
-        return b
-    return None
+    others = {x for x in (a, b, tv, fv) if x != rem}
+    if len(others) != 1 or rem not in (a, b) or rem not in (tv, fv):
+        return None
+    S = next(iter(others))
+    fn._cache['min_signed'] = cond.pred[0] == 's'
+    from ..oblig import _eval_icmp
+    for rv, sv in ((1, 2), (2, 2), (2, 1), (0, 5), (7, 3)):
+        env = {rem: rv, S: sv}
+        if a not in env or b not in env or tv not in env or fv not in env:
+            return None
+        got = env[tv] if _eval_icmp(cond.pred, env[a], env[b], 32) else env[fv]
+        if got != min(rv, sv):
+            return None
+    return S
 
 def affine_form(P, f, C, M, n, cursor_side):
     """copy length n = min(T - X, S) with the position = base + X, X = i*S.  -> (ok, message) or None if not this shape"""
@@ -108,71 +108,86 @@ def affine_form(P, f, C, M, n, cursor_side):
     return None
 
 def cursor_rule(P, r, fname, cursor_side):
+    """split / reassembly loops: in every iteration that copies, n = min(remaining, payload) bytes are copied, the cursor
+    (source position when splitting, destination position when reassembling) advances by n and remaining drops by n.
+    Stated over polynomial recurrences, so an index, a walking pointer or base + offset are the same thing."""
+    from ..poly import PolyCtx, Poly
+    from ..loops import loops_of, innermost
     f = P.fn(fname)
     C = Canon(P, f)
-    loops = natural_loops(f)
+    pc = PolyCtx(P, f, C)
+    LS = loops_of(P, f, pc)
     found = 0
-    for h, body in loops.items():
-        mcs = [i for b in body for i in b.insts if i.op == 'call' and i.callee.startswith('@llvm.memcpy')]
-        for M in mcs:
-            n = strip_int_casts(f, M.ops[2])
-            phis = [i for i in h.insts if i.op == 'phi']
-            rem = [(p, strip_int_casts(f, fd.ops[1])) for p in phis if p.ty.startswith('i') and not p.ty.endswith('*')
-                   for v, l in p.incoming if f.blocks[l] in body for fd in [f.defs.get(v)] if fd is not None and fd.op == 'sub' and strip_int_casts(f, fd.ops[0]) == p.res]
-            ptr_cur = [(p, strip_int_casts(f, fd.ops[1])) for p in phis if p.ty.endswith('*')
-                       for v, l in p.incoming if f.blocks[l] in body for fd in [f.defs.get(v)] if fd is not None and fd.op == 'getelementptr' and fd.ops[0] == p.res]
-            int_cur = [(p, [strip_int_casts(f, o) for o in fd.ops if strip_int_casts(f, o) != p.res][0]) for p in phis if p.ty.startswith('i') and not p.ty.endswith('*')
-                       for v, l in p.incoming if f.blocks[l] in body for fd in [f.defs.get(v)]
-                       if fd is not None and fd.op == 'add' and p.res in [strip_int_casts(f, o) for o in fd.ops] and '1' not in fd.ops]
-            if not rem:
-                # affine form: copy = min(total - i*size, size) from base + i*size
-                aff = affine_form(P, f, C, M, n, cursor_side)
-                if aff is not None:
-                    found += 1
-                    ok, msg = aff
-                    inst = f'{fname}: memcpy at line {M.line} (affine cursor)'
-                    if ok:
-                        r.ok(inst + ': ' + msg, func=f.name, loc=M.loc)
-                    else:
-                        r.fail(inst, func=f.name, sig='affine cursor: ' + msg[:90], loc=M.loc, msg='split/reassembly loop breaks the cursor discipline: ' + msg)
+    for M in [i for i in f.insts() if i.op == 'call' and i.callee.startswith('@llvm.memcpy')]:
+        L0 = innermost(LS, M.bb)
+        if L0 is None:
+            continue
+        L = L0.via(M.bb)
+        n = strip_int_casts(f, M.ops[2])
+        npoly = L.pc.val(n)
+        # remaining-length variable: a header phi R whose next value is R - n
+        rem = []
+        for phi in L.phis:
+            if phi.ty.endswith('*'):
                 continue
-            found += 1
-            inst = f'{fname}: memcpy at line {M.line}'
-            R, dec = rem[0]
-            S = min_of(f, C, n, R.res)
-            problems = []
-            if dec != n:
-                problems.append(f'remaining length is decremented by {C.val(dec)} but {C.val(n)} bytes are copied')
-            if S is None:
-                problems.append(f'bytes copied ({C.val(n)}) is not min(remaining, payload size)')
-            cur = ptr_cur + int_cur
-            if cursor_side == 'src':
-                used = strip_ptr_casts(f, M.ops[1])
+            init, step = L.recurrence(phi)
+            if step is not None and (step + npoly).is_zero() and not npoly.is_zero():
+                rem.append(phi)
+        if not rem:
+            aff = affine_form(P, f, C, M, n, cursor_side)
+            if aff is not None:
+                found += 1
+                ok, msg = aff
+                inst = f'{fname}: memcpy at line {M.line} (affine cursor)'
+                if ok:
+                    r.ok(inst + ': ' + msg, func=f.name, loc=M.loc)
+                else:
+                    r.fail(inst, func=f.name, sig='affine cursor: ' + msg[:90], loc=M.loc, msg='split/reassembly loop breaks the cursor discipline: ' + msg)
+                continue
+            # a loop with a copy whose length is tied to no decreasing remaining-length variable
+            decs = [phi for phi in L.phis if not phi.ty.endswith('*') and L.recurrence(phi)[1] is not None
+                    and any(a.startswith('%') for a in L.recurrence(phi)[1].atoms())]
+            if decs:
+                found += 1
+                R = decs[0]
+                r.fail(f'{fname}: memcpy at line {M.line}', func=f.name, sig='cursor discipline: remaining length and copy length disagree', loc=M.loc,
+                       msg=f'split/reassembly loop breaks the cursor discipline: remaining length changes by {L.recurrence(R)[1]} per iteration but {npoly} bytes are copied')
+            continue
+        found += 1
+        inst = f'{fname}: memcpy at line {M.line}'
+        R = rem[0]
+        problems = []
+        S = min_of(f, C, n, R.res)
+        if S is None:
+            problems.append(f'bytes copied ({C.val(n)}) is not min(remaining, payload size)')
+        # cursor: position used by the copy, as a function of the header phis; its change over one iteration must be n
+        used = M.ops[1] if cursor_side == 'src' else M.ops[0]
+        root, off = L.pc.ptr(used)
+        delta = Poly()
+        moving = False
+        phis = {p.res: p for p in L.phis}
+        if root in phis:
+            init, step = L.recurrence(phis[root])
+            if step is None:
+                problems.append('the position pointer is not advanced uniformly')
             else:
-                d = f.defs.get(strip_ptr_casts(f, M.ops[0]))
-                used = strip_int_casts(f, d.ops[-1]) if d is not None and d.op == 'getelementptr' else None
-            mine = [(p, adv) for p, adv in cur if p.res == used]
-            if not mine:
-                # affine alternative: base + i * size
-                ud = f.defs.get(used) if used else None
-                affine = False
-                if ud is not None and ud.op == 'getelementptr':
-                    off = f.defs.get(strip_int_casts(f, ud.ops[-1]))
-                    if off is not None and off.op == 'mul':
-                        affine = True
-                if ud is not None and ud.op == 'mul':
-                    affine = True
-                if not affine:
-                    problems.append(f'the {"source" if cursor_side == "src" else "destination"} position ({C.val(used) if used else "?"}) does not advance with the loop')
-            else:
-                p, adv = mine[0]
-                if adv != n:
-                    problems.append(f'the cursor advances by {C.val(adv)} but {C.val(n)} bytes are copied')
-            if problems:
-                r.fail(inst, func=f.name, sig='cursor discipline: ' + problems[0][:90], loc=M.loc,
-                       msg='split/reassembly loop breaks the cursor discipline: ' + '; '.join(problems))
-            else:
-                r.ok(inst + f': copy = advance = decrement = min(remaining, {C.val(S)})', func=f.name, loc=M.loc)
+                delta = delta + step; moving = True
+        for a in sorted(off.atoms() & set(phis)):
+            init, step = L.recurrence(phis[a])
+            if step is None:
+                problems.append(f'offset variable {a} is not advanced uniformly')
+                continue
+            delta = delta + (off.subst(a, Poly.atom(a) + step) - off); moving = True
+        side = 'source' if cursor_side == 'src' else 'destination'
+        if not moving:
+            problems.append(f'the {side} position ({C.val(used)[:60]}) does not advance with the loop')
+        elif delta != npoly:
+            problems.append(f'the {side} position advances by {delta} per iteration but {npoly} bytes are copied')
+        if problems:
+            r.fail(inst, func=f.name, sig='cursor discipline: ' + problems[0][:90], loc=M.loc,
+                   msg='split/reassembly loop breaks the cursor discipline: ' + '; '.join(problems))
+        else:
+            r.ok(inst + f': copy = advance = decrement = min(remaining, {C.val(S)})', func=f.name, loc=M.loc)
     if not found:
         r.undecided(f'{fname}: copy loop', msg='no loop with a memcpy and a decreasing remaining-length variable was recognised')
 
@@ -288,8 +303,8 @@ def run(ctx):
     rb.require_min(5); rc.require_min(2)
     rk = ctx.rule('R01d', 'coding kernels process every byte of the block (XOR kernel, RS region_xor / region_multiply)',
                   'payload sizes are multiples of 2 or 4 bytes only: a kernel tail for another width leaves the last bytes of parity / rebuilt data stale')
-    from .. import xorrules, regions
-    xorrules.kernel_rule(P, rk)
-    regions.region_cover_rule(P, rk, 'region_xor', 1, 2)
-    regions.region_cover_rule(P, rk, 'region_multiply', 1, 4)
-    rk.require_min(5)
+    from .. import cover
+    cover.cover_rule(P, rk, 'xor_bufs_and_store', [0], 1, 2)
+    cover.cover_rule(P, rk, 'region_xor', [0], 1, 2)
+    cover.cover_rule(P, rk, 'region_multiply', [0], 1, 4)
+    rk.require_min(3)
